@@ -6,7 +6,7 @@ use crate::wasm_gen::*;
 use cw_multi_test::App;
 
 fn new_ctx(rng: &mut Rng) -> Ctx {
-    Ctx { marker: 0, sub_id: 0, contracts: vec![], codes: 2, malformed: rng.chance(1, 4), attr_heavy: false, salts: false, insts: 0 }
+    Ctx { marker: 0, sub_id: 0, contracts: vec![], codes: 2, malformed: rng.chance(1, 4), attr_heavy: false, salts: false, insts: 0, staking: false }
 }
 
 // ------------------------------------------------------------------------------------------------
@@ -444,6 +444,120 @@ pub fn gen_legacy(rng: &mut Rng, thorough: bool) -> Vec<String> {
             ops.push(format!("wdump {}", c2));
             ops.push(format!("cstore {} ~ ~ asc", c2));
             ops.push(format!("q-raw {} {}", c2, rng.pick(&keys)));
+        }
+    }
+    ops
+}
+
+// ------------------------------------------------------------------------------------------------
+// message trees that also contain staking / distribution messages (users and contracts as delegators),
+// slashes, block advances with whole-second, non-decreasing block times, staking queries from contracts
+
+pub fn gen_stk(rng: &mut Rng, thorough: bool) -> Vec<String> {
+    let mut ops: Vec<String> = vec![];
+    let mut ctx = new_ctx(rng);
+    ctx.malformed = rng.chance(1, 5);
+    let mut now: u64 = 1_000 + rng.below(1000);
+    let mut height: u64 = 10;
+    // the block must be set before the common setup so that validators and contracts are created at whole seconds
+    let mut pre: Vec<String> = vec![];
+    setup(rng, &mut pre, &mut ctx, false);
+    // move the bind lines first, then the block, then the rest of the setup (dropping a possible random `block` line)
+    for l in pre.iter().filter(|l| l.starts_with("bind")) {
+        ops.push(l.clone());
+    }
+    ops.push(format!("block {} {}", height, now * 1_000_000_000));
+    let unb = rng.pick(&[10u64, 10, 60, 0]);
+    let apr = rng.pick(&["100000000000000000", "1000000000000000000", "70000000000000000"]);
+    ops.push(format!("stk-setup d1 {} {}", unb, apr));
+    ops.push(format!("stk-val v1 {}", rng.pick(&["100000000000000000", "0", "333333333333333333"])));
+    ops.push(format!("stk-val v2 {}", rng.pick(&["0", "30000000000000000", "1"])));
+    if rng.chance(1, 6) {
+        ops.push("stk-val v1 0".into()); // duplicate validator: rejected
+    }
+    for l in pre.iter().filter(|l| !l.starts_with("bind") && !l.starts_with("block ")) {
+        ops.push(l.clone());
+    }
+    ctx.staking = true;
+    // initial delegations by users and by contracts (contracts hold d1 from their instantiation funds)
+    ops.push("exec u1 (deleg v1 5:d1)".into());
+    ops.push("exec u2 (deleg v1 3:d1)".into());
+    ops.push("exec u1 (exec c1_0 ((msg (deleg v1 3:d1))) -)".into());
+    ops.push("trace".into());
+    ops.push("exec u1 (exec c2_1 ((msg (deleg v2 2:d1)) (msg (deleg v1 1:d1))) -)".into());
+    ops.push("trace".into());
+    if rng.chance(2, 3) {
+        now += rng.pick(&[31_536_000u64, 15_768_000, 63_072_000, 3_000_000]);
+        height += 1;
+        ops.push(format!("block {} {}", height, now * 1_000_000_000));
+    }
+    ops.push("dump".into());
+    // (delegator, validator) pairs that hold a delegation with high probability
+    let pairs: Vec<(&str, &str)> = vec![("u1", "v1"), ("u2", "v1"), ("c1_0", "v1"), ("c2_1", "v2"), ("c2_1", "v1")];
+    let ntx = if thorough { rng.range(4, 11) } else { rng.range(3, 7) };
+    for _ in 0..ntx {
+        ops.push("rawhash".into());
+        let r = rng.below(100);
+        let depth = rng.range(0, 2) as u32;
+        let sender = rng.pick(USERS).to_string();
+        if r < 35 {
+            // an operation on an existing delegation, by its owner (a user directly, a contract through a message)
+            let (d, v) = rng.pick(&pairs);
+            let amt = format!("{}:d1", rng.range(1, 3));
+            let m = match rng.below(10) {
+                0..=2 => format!("(undeleg {} {})", v, amt),
+                3..=5 => format!("(withdraw {})", v),
+                6 => format!("(redeleg {} {} {})", v, if v == "v1" { "v2" } else { "v1" }, amt),
+                7 => format!("(deleg {} {})", v, amt),
+                8 => format!("(setwd {})", rng.pick(&["u3", "u1", "c1_2", "bad"])),
+                _ => format!("(undeleg {} 9:d1)", v),
+            };
+            if d.starts_with('u') {
+                ops.push(format!("exec {} {}", d, m));
+            } else {
+                ctx.sub_id += 1;
+                let mode = rng.pick(&["always", "error", "success", "never"]);
+                ops.push(format!(
+                    "exec u3 (exec {} ((qdeleg {} {}) (sub {} {} ((qdeleg {} {}) (qalldeleg {})) {}) (qbal {} d1)) -)",
+                    d, d, v, ctx.sub_id, mode, d, v, d, m, d
+                ));
+            }
+        } else if r < 42 {
+            ops.push(format!("exec {} {}", sender, gen_stk_msg(rng, &ctx)));
+        } else if r < 60 {
+            let m = gen_msg(rng, &mut ctx, depth);
+            ops.push(format!("exec {} {}", sender, m));
+        } else if r < 68 {
+            let k = rng.range(2, 3);
+            let ms: Vec<String> = (0..k).map(|_| gen_msg(rng, &mut ctx, 1)).collect();
+            ops.push(format!("multi {} ({})", sender, ms.join(" ")));
+        } else if r < 76 {
+            let p = rng.pick(&["0", "1", "100000000000000000", "333333333333333333", "500000000000000000", "1000000000000000000", "1500000000000000000"]);
+            ops.push(format!("sudo-slash {} {}", rng.pick(&["v1", "v1", "v2", "v9"]), p));
+        } else if r < 80 {
+            let c = contract(rng, &ctx);
+            ops.push(format!("sudo-wasm {} {}", c, gen_script(rng, &mut ctx, depth, false)));
+        } else {
+            // time moves forward only
+            if rng.chance(1, 2) {
+                ops.push("next-block".into());
+                now += 5;
+                height += 1;
+            } else {
+                let dt = rng.pick(&[0u64, 1, 4, 5, 9, 10, 11, 55, 60, 61, 86_400, 31_536_000, 15_768_000]);
+                now += dt;
+                height += rng.range(0, 3);
+                ops.push(format!("block {} {}", height, now * 1_000_000_000));
+            }
+        }
+        observe(&mut ops);
+        if rng.chance(1, 2) {
+            for u in ["u1", "u2"] {
+                ops.push(format!("q-deleg {} v1", u));
+            }
+            ops.push(format!("q-deleg {} {}", rng.pick(&ctx.contracts), rng.pick(&["v1", "v2"])));
+            ops.push(format!("q-alldeleg {}", rng.pick(&["u1", "u2", "c1_0", "bad"])));
+            ops.push("rawhash".into());
         }
     }
     ops
